@@ -188,7 +188,9 @@ def get_solution(
             reverse = rxn.reverse_id
             rxn_index.append(forward)
             fluxes[i] = var_primals[forward] - var_primals[reverse]
-            reduced[i] = var_duals[forward] - var_duals[reverse]
+            # The reverse variable is the negated column: its reduced cost is the
+            # negative of the forward one, so the difference would count it twice.
+            reduced[i] = var_duals[forward]
         met_index = []
         constr_duals = model.solver.shadow_prices
         for i, met in enumerate(metabolites):
